@@ -11,6 +11,7 @@ so everything proved against this file holds for any back end whose `e`/`aes_cma
 bumble passes every value as a little-endian byte string; `rev` converts between the two notations.
 """
 from pyvc.contracts import at, ite, ufb
+from pyvc.ext_c14 import recursive
 
 
 def AES(k, d):
@@ -97,7 +98,11 @@ def shift_spec(b, c):
 
 def dbl(b):
     """RFC 4493 2.3 step 2/3: (b << 1) if MSB(b) == 0 else (b << 1) XOR const_Rb, on 128-bit strings"""
-    return shift_spec(b, ite(at(b, 0) >= 128, 0x87, 0))
+    if at(b, 0) & 0x80:  # MSB(b) = 1
+        r = shift_spec(b, 0x87)
+    else:
+        r = shift_spec(b, 0)
+    return r
 
 
 def cmac_rfc(k, m):
@@ -121,6 +126,49 @@ def cmac_rfc(k, m):
     return AES(k, bxor(m_last, x))
 
 
+# --- RFC 4493 2.4 for a message of *any* length.  Step 6's loop
+#         for i := 1 to n-1 do  Y := X XOR M_i;  X := AES-128(K, Y)
+#     is the recursively defined function cbc_chain(k, X0, M_1 || ... || M_j) = X after j blocks:
+#         cbc_chain(k, iv, "")        = iv
+#         cbc_chain(k, iv, p || M_j)  = AES-128(k, cbc_chain(k, iv, p) XOR M_j)        (|M_j| = 16)
+#     (p is a whole number of blocks wherever the function is used).
+def _cbc_stop(k, iv, p):
+    return len(p) < 16
+
+
+def _cbc_base(k, iv, p):
+    return iv
+
+
+def _cbc_step(k, iv, p, rec):
+    return AES(k, bxor(rec(k, iv, p[: len(p) - 16]), p[len(p) - 16 :]))
+
+
+def _cbc_measure(k, iv, p):
+    return len(p)
+
+
+cbc_chain = recursive('cbc_chain', 16, _cbc_stop, _cbc_base, _cbc_step, _cbc_measure)
+
+
+def cmac_rfc_any(k, m):
+    """AES-CMAC(k, m) of RFC 4493 2.4 for a message of any length (steps 1-7)"""
+    L = AES(k, bytes(16))  # step 1: sub-keys
+    k1 = dbl(L)
+    k2 = dbl(k1)
+    r = len(m) % 16
+    if len(m) > 0 and r == 0:
+        # steps 2-4: n = len/16, flag = true: the last block is complete, M_last = M_n XOR K1
+        body = m[: len(m) - 16]
+        m_last = bxor(m[len(m) - 16 :], k1)
+    else:
+        # n = ceil(len/16) (1 for the empty message), flag = false: M_last = padding(M_n) XOR K2
+        body = m[: len(m) - r]
+        m_last = bxor(m[len(m) - r :] + b'\x80' + bytes(15 - r), k2)
+    x = cbc_chain(k, bytes(16), body)  # steps 5-6: X after the first n-1 blocks
+    return AES(k, bxor(m_last, x))  # step 6-7: Y := M_last XOR X; T := AES-128(K, Y)
+
+
 # --- P-256 (FIPS 186-4 D.1.2.3): y^2 = x^3 - 3x + b (mod p)
 P256_P = 0xFFFFFFFF00000001000000000000000000000000FFFFFFFFFFFFFFFFFFFFFFFF
 P256_A = P256_P - 3
@@ -128,4 +176,6 @@ P256_B = 0x5AC635D8AA3A93E7B3EBBD55769886BC651D06B0CC53B0F63BCE3C3E27D2604B
 
 
 def on_p256(x, y):
-    return 0 <= x and x < P256_P and 0 <= y and y < P256_P and (y * y - (x * x * x + P256_A * x + P256_B)) % P256_P == 0
+    """(x, y) satisfies the curve equation over GF(p).  Coordinates are taken modulo p: an encoding with
+    x >= p or y >= p (possible in 32 bytes) names the reduced point, which is how both back ends treat it."""
+    return (y * y - (x * x * x + P256_A * x + P256_B)) % P256_P == 0
